@@ -689,6 +689,22 @@ func Go(fn func()) {
 	Yield("go")
 }
 
+// Spawn starts fn as a new managed thread from scheduler context (a timer callback, a cancellation): no scheduling point,
+// no happens-before edge (the caller publishes its own, see vtime.AfterFunc).
+//
+//go:norace
+func Spawn(fn func()) {
+	s := active
+	if s == nil {
+		go fn()
+		return
+	}
+	if s.aborting {
+		return
+	}
+	s.startThread(&Thread{}, "t", fn)
+}
+
 // Now returns virtual nanoseconds since the start of the execution.
 //
 //go:norace
